@@ -4,8 +4,8 @@ import json, os
 HERE = os.path.dirname(os.path.abspath(__file__))
 
 
-def w(name, props, fn, what, script, bad):
-    json.dump({"properties": props, "function": fn, "what": what, "script": script, "bad_if": bad},
+def w(name, props, fn, what, script, bad, more=()):
+    json.dump({"properties": props, "function": fn, "functions": list(more), "what": what, "script": script, "bad_if": bad},
               open(os.path.join(HERE, 'witness', name + '.json'), 'w'))
 
 
@@ -104,4 +104,33 @@ w('g2_wildcard_literal_star', ['C14', 'C07'], 'match_wildcard',
   [reg('a', 'alice'), ['a', 'send', 'JOIN #wc'], ['a', 'recv'], ['a', 'send', 'MODE #wc +b *ad!*@*'], ['a', 'recv'], ['b', 'reg', '*bad'], ['b', 'send', 'JOIN #wc'], ['b', 'recv', 'join'],
    ['a', 'send', 'MODE #wc -b *ad!*@*'], ['a', 'send', 'MODE #wc +b ?x*!*@*'], ['a', 'recv'], ['c', 'reg', '?xy'], ['c', 'send', 'JOIN #wc'], ['c', 'recv', 'join2']],
   "panic or not any(' 001 ' in l for l in R['reg_b']) or not any(' 474 ' in l for l in R['join']) or not any(' 474 ' in l for l in R['join2'])")
+w('g3_whois_collection', ['C12', 'C05', 'C04'], 'MainState::process_whois',
+  'WHOIS with wildcard masks / unknown names aborts the handler, answers about a user twice, or reveals an invisible stranger',
+  [reg('a', 'alice'), reg('b', 'bob'), reg('c', 'carol'), ['a', 'send', 'MODE alice +i'], ['a', 'recv'],
+   ['b', 'send', 'WHOIS al*'], ['b', 'recv', 'mask_inv'], ['b', 'send', 'WHOIS nosuch'], ['b', 'recv', 'nosuch'],
+   ['b', 'send', 'WHOIS b*,nosuch,bob'], ['b', 'recv', 'dup'], ['b', 'send', 'WHOIS *'], ['b', 'recv', 'all'], ['b', 'send', 'WHOIS ?arol'], ['b', 'recv', 'q'],
+   ['b', 'send', 'PING :alive'], ['b', 'recv', 'alive']],
+  "panic or 'b' in eof or any(' 311 ' in l for l in R['mask_inv']) or not any(' 318 ' in l for l in R['mask_inv']) "
+  "or any(' 311 ' in l for l in R['nosuch']) or not any(' 318 ' in l for l in R['nosuch']) "
+  "or sum(1 for l in R['dup'] if ' 311 ' in l) != 1 or not any(' 311 ' in l and ' bob ' in l for l in R['dup']) "
+  "or sorted(l.split()[3] for l in R['all'] if ' 311 ' in l) != ['bob', 'carol'] "
+  "or [l.split()[3] for l in R['q'] if ' 311 ' in l] != ['carol'] or not any('PONG' in l for l in R['alive'])")
+w('g3_help_time_pong', ['C05'], 'MainState::process_help',
+  'HELP / TIME / PONG abort the handler, answer wrongly or change the session',
+  [reg('a', 'alice'), ['a', 'send', 'HELP'], ['a', 'recv', 'main'], ['a', 'send', 'HELP COMMANDS'], ['a', 'recv', 'cmds'], ['a', 'send', 'HELP nosuch'], ['a', 'recv', 'bad'],
+   ['a', 'send', 'TIME'], ['a', 'recv', 'time'], ['a', 'send', 'TIME other.server'], ['a', 'recv', 'time2'], ['a', 'send', 'PONG :x'], ['a', 'recv', 'pong'],
+   ['a', 'send', 'PING :alive'], ['a', 'recv', 'alive']],
+  "panic or 'a' in eof or not any(' 704 ' in l for l in R['main']) or not any(' 706 ' in l for l in R['main']) or not R['main'][-1].split()[1] == '706' "
+  "or not any(' 704 ' in l for l in R['cmds']) or not R['cmds'][-1].split()[1] == '706' or sum(1 for l in R['cmds'] if ' 704 ' in l) != 1 "
+  "or [l.split()[1] for l in R['bad']] != ['524'] or [l.split()[1] for l in R['time']] != ['391'] or [l.split()[1] for l in R['time2']] != ['400'] "
+  "or R['pong'] != [] or not any('PONG' in l for l in R['alive'])", more=['MainState::process_time', 'MainState::process_pong'])
+w('g3_parser_verbs', ['C13', 'C05', 'C03'], 'Command::parse_from_message',
+  'a verb that is not a command name (non-ASCII look-alike letters) is executed instead of being answered with 421, an ASCII verb in lower case is refused, or a relayed text loses characters',
+  [reg('a', 'alice'), reg('b', 'bob'), ['a', 'send', 'JOIN #pv'], ['a', 'recv'], ['b', 'send', 'JOIN #pv'], ['b', 'recv'], ['a', 'recv'],
+   ['a', 'send', 'top\u0131c #pv :x'], ['a', 'recv', 'dotless'], ['b', 'recv', 'relay1'], ['a', 'send', 'pa\u00df x'], ['a', 'recv', 'sz'],
+   ['a', 'send', 'privmsg #pv :lower  case '], ['b', 'recv', 'relay2'], ['a', 'send', 'PrIvMsG bob ::) x:y'], ['b', 'recv', 'relay3'],
+   ['a', 'send', 'PING :alive'], ['a', 'recv', 'alive']],
+  "panic or 'a' in eof or not any(' 421 ' in l for l in R['dotless']) or R['relay1'] != [] or not any(' 421 ' in l for l in R['sz']) "
+  "or R['relay2'] != [':alice!~alice@127.0.0.1 PRIVMSG #pv :lower  case '] or R['relay3'] != [':alice!~alice@127.0.0.1 PRIVMSG bob ::) x:y'] "
+  "or not any('PONG' in l for l in R['alive'])", more=['Command::from_message', 'Message::from_shared_str', 'Command::validate'])
 print('written')
